@@ -701,28 +701,28 @@ func RunCheck(o Options) int {
 	wall := time.Since(start).Seconds()
 	evals := plain.Evals + race.Evals
 	cov := map[string]any{
-		"evaluations":                evals,
-		"distinct_nontrivial":        len(sigs),
-		"rule":                       e.Rule,
-		"samples":                    append(append([]any{}, plain.Samples...), race.Samples...),
-		"simulated_runs":             plain.Runs + race.Runs,
-		"runs_plain":                 plain.Runs,
-		"runs_race_arm":              race.Runs,
-		"runs_planned":               plain.Planned + race.Planned,
-		"nontrivial_runs":            plain.NonTrivial + race.NonTrivial,
-		"distinct_count_capped":      plain.SigCapped || race.SigCapped,
-		"wall_cap_hit":               plain.TimedOut || race.TimedOut,
-		"runs_per_hour":              int(float64(evals) / wall * 3600),
-		"seeds":                      fmt.Sprintf("VERIF_SEED=%d; every run index i uses tape seed hash(VERIF_SEED, property, i)", o.Seed),
-		"sim_steps":                  plain.Steps + race.Steps,
-		"sim_time_ns":                plain.SimTimeNs + race.SimTimeNs,
-		"faults_fired":               mergeCounts(plain.Faults, race.Faults),
-		"probes":                     mergeCounts(plain.Probes, race.Probes),
-		"discarded":                  mergeCounts(plain.Discarded, race.Discarded),
-		"event_log_hash":             fmt.Sprintf("%016x", plain.LogHash),
-		"components":                 map[string]any{"real": e.Real, "simulated": e.Simulated},
-		"violations_reported":        reported,
-		"known_findings_seen":        knownSeen,
+		"evaluations":                 evals,
+		"distinct_nontrivial":         len(sigs),
+		"rule":                        e.Rule,
+		"samples":                     append(append([]any{}, plain.Samples...), race.Samples...),
+		"simulated_runs":              plain.Runs + race.Runs,
+		"runs_plain":                  plain.Runs,
+		"runs_race_arm":               race.Runs,
+		"runs_planned":                plain.Planned + race.Planned,
+		"nontrivial_runs":             plain.NonTrivial + race.NonTrivial,
+		"distinct_count_capped":       plain.SigCapped || race.SigCapped,
+		"wall_cap_hit":                plain.TimedOut || race.TimedOut,
+		"runs_per_hour":               int(float64(evals) / wall * 3600),
+		"seeds":                       fmt.Sprintf("VERIF_SEED=%d; every run index i uses tape seed hash(VERIF_SEED, property, i)", o.Seed),
+		"sim_steps":                   plain.Steps + race.Steps,
+		"sim_time_ns":                 plain.SimTimeNs + race.SimTimeNs,
+		"faults_fired":                mergeCounts(plain.Faults, race.Faults),
+		"probes":                      mergeCounts(plain.Probes, race.Probes),
+		"discarded":                   mergeCounts(plain.Discarded, race.Discarded),
+		"event_log_hash":              fmt.Sprintf("%016x", plain.LogHash),
+		"components":                  map[string]any{"real": e.Real, "simulated": e.Simulated},
+		"violations_reported":         reported,
+		"known_findings_seen":         knownSeen,
 		"violating_runs_before_dedup": plain.ViolCount + race.ViolCount,
 	}
 	if len(cov["samples"].([]any)) > 6 {
